@@ -249,9 +249,11 @@ def valid_mask(lengths, batch_shape, t):
   return m
 
 
-def select_at_length(history, lengths, nb):
-  """history: list over t of arrays (*batch, ...) (state after step t) -> out[b] = history[L_b-1][b]."""
+def select_at_length(history, lengths, nb, initial=None):
+  """history: list over t of arrays (*batch, ...) (state after step t) -> out[b] = history[L_b-1][b]; an empty sequence
+  (L_b = 0) has made no step: its state is the initial one."""
   out = np.array(history[0], copy=True)
   for b in np.ndindex(*out.shape[:nb]):
-    out[b] = history[int(lengths[b]) - 1][b]
+    L = int(lengths[b])
+    out[b] = history[L - 1][b] if L > 0 else np.asarray(initial)[b]
   return out
